@@ -29,12 +29,13 @@ const (
 
 // caseInput is everything needed to re-run one case (replay file).
 type caseInput struct {
-	Salt    uint64     `json:"salt"`
-	Base    *Op        `json:"base"`
-	Reforms []Reform   `json:"reforms"`
-	History []int      `json:"history,omitempty"` // sequential Loads on one instance (indices into variantNames)
-	Inter   *interCase `json:"inter,omitempty"`   // two interleaved Loads on one instance
-	Key     string     `json:"key,omitempty"`     // the finding key this case was shrunk for
+	Salt     uint64     `json:"salt"`
+	Base     *Op        `json:"base"`
+	Reforms  []Reform   `json:"reforms"`
+	ListMode int        `json:"list_mode,omitempty"` // state of every list wrapper of the service (index into listModeNames)
+	History  []int      `json:"history,omitempty"`   // sequential Loads on one instance (indices into variantNames)
+	Inter    *interCase `json:"inter,omitempty"`     // two interleaved Loads on one instance
+	Key      string     `json:"key,omitempty"`       // the finding key this case was shrunk for
 }
 
 type evaluated struct {
@@ -686,6 +687,10 @@ func (c *checker) classOfCase(in caseInput) string {
 
 // report shrinks (unless this pre-class is already settled), classifies and records.
 func (c *checker) report(in caseInput, f finding) {
+	// the service state of the case holds while it is shrunk / classified
+	saved := c.e.svc.listMode
+	c.e.svc.listMode = in.ListMode
+	defer func() { c.e.svc.listMode = saved }()
 	pre := f.key() + " || " + rootKind(in.Base) + " || " + caseLabel(in) + " || " + c.features(in.Base)
 	if fps := c.shrinkCache[pre]; len(fps) >= 2 && fps[0] == fps[1] {
 		parts := strings.SplitN(fps[0], "\x00", 3)
@@ -787,6 +792,30 @@ func (c *checker) exploreBase(base *Op, pairs bool) {
 	}
 	for _, f := range own {
 		c.report(caseInput{Salt: c.salt, Base: base}, f)
+	}
+	// every state of the list wrappers (null by absence / null without `list` / empty / inner null / inner empty)
+	if bev.j != nil && bev.j.stats["list_wrapper_positions"] > 0 {
+		baseKeys := map[string]bool{}
+		for _, f := range own {
+			baseKeys[f.key()] = true
+		}
+		for mode := listNullAbsent; mode <= listInnerEmpty; mode++ {
+			c.e.svc.listMode = mode
+			ev := c.eval(base)
+			fs := c.ownFindings(ev, "base")
+			c.e.svc.listMode = listByHash
+			run.Count("list_wrapper_state_runs", 1)
+			clean := true
+			for _, f := range fs {
+				if !baseKeys[f.key()] {
+					clean = false
+					c.report(caseInput{Salt: c.salt, Base: base, ListMode: mode}, f)
+				}
+			}
+			if clean {
+				run.Count("list_wrapper_state_runs_without_finding", 1)
+			}
+		}
 	}
 	seen := map[string]bool{base.String(): true}
 	one := func(rs []Reform) *Op {
@@ -926,6 +955,7 @@ func TestCheck(t *testing.T) {
 		}
 		c := &checker{t: t, run: run, e: e, g: newGen(e, width), salt: in.Salt, shrinkCache: map[string][]string{}}
 		var fs []finding
+		c.e.svc.listMode = in.ListMode
 		if in.Inter != nil || len(in.History) > 0 {
 			fs = c.replayStateful(in)
 		} else {
